@@ -290,16 +290,205 @@ def run(tier, seed):
                 rep.inconclusive.append('%s: "%s" has a model that the real VM does not exhibit' % (tagname, d['msg'][:80]))
         if len(rep.samples) < 8:
             rep.samples.append(dict(edit=tagname, kept=m['kept'], new=m['new'], feasible_paths=r['paths'], equalities_checked=r.get('checks')))
+    try:
+        fs, fstats = fault_scenarios(mirs, os.path.join(common.VERIF, 'corpus', 'st_delay.mmm'))
+    except Exception as e:
+        import traceback
+        fs, fstats = [dict(scenario='*', status='error', msg='%r %s' % (e, traceback.format_exc()[-600:]))], {}
+    for k, v in fstats.items():
+        rep.stats[k] = rep.stats.get(k, 0) + v
+    for f in fs:
+        if f['status'] == 'violation':
+            rep.finding('fault:' + f['scenario'], dict(program='fault scenario: ' + f['scenario'], msg=f['msg'], detail=f))
+        elif f['status'] != 'ok':
+            rep.inconclusive.append('fault scenario %s: unsupported: %s' % (f['scenario'], f.get('msg', '')[:200]))
+    rep.extra['fault_scenarios'] = fs
     cov = dict(states=max(1, npaths), transitions=max(1, rep.stats['queries']), traces_validated_against_impl=rep.replays, edit_pairs=len(scr),
                equalities_checked=nchecks, voice_kinds=sorted(VOICES),
                routes=[list(b) for b in c06.BACKENDS],
                bounds='%d scripted edits (insert / delete / replace a voice at any position, change a constant, near-copy insertions, and compound edits: a sibling inserted / deleted in front of an untouched voice plus a later voice edited inside) over programs of 2-3 voices drawn from %d voice kinds; '
                       'pre-swap state fully symbolic; one post-swap sample with symbolic input; every edit through three routes: VmDspRuntime::try_hot_swap, and WasmDspRuntime::try_hot_swap with the payload of '
                       'FileRunner::prepare_hot_swap_wasm_payload as the native CLI calls it (bytes only) and as recompile_file_inprocess calls it (with skeleton)' % (len(scr), len(VOICES)))
-    assumptions = ['"an edit that fails to compile leaves the running program unchanged" is control flow of the CLI recompile thread (channels / threads): not encoded',
+    assumptions = ['"an edit that fails to compile leaves the running program unchanged": decided on the CLI recompile paths (recompile_file_inprocess closure, recompile_file) executed from MIR with every outcome of the compile step stubbed in turn (file read, subprocess, compiler answer, prewarm); the audio-thread side (the driver polling the channel) and real threads are not encoded',
                    'Machine::link_functions stubbed; WASM: WasmEngine::new / load_module and the WasmModule surface are served by wasmsym (see C06); replay of WASM witnesses uses a replica of prepare_hot_swap_wasm_payload in mmdump with the real try_hot_swap',
                    'edit scripts define which voices count as untouched']
     return rep.finish(cov, assumptions)
+
+
+# ---------------------------------------------------------------------------------------------------------------------------
+# "An edit that fails to compile leaves the running program and its state unchanged": the only way a new program reaches the audio
+# thread is a ProgramPayload sent through FileRunner.tx_prog.  The MIR of the CLI's recompile paths is executed with every outcome of
+# the compile step (the compile itself, the subprocess and the file read are the stubs -- they are the fault sources) and the channel
+# is inspected: a failed step sends nothing and does not touch the remembered old program; a successful one sends exactly one payload.
+# ---------------------------------------------------------------------------------------------------------------------------
+def fault_scenarios(mirs, sample_prog):
+    from mirsym.values import Sc, Ref, Agg, VecV, StrV, Opaque, UNIT, Slice
+    from mirsym.models import some, none, ok, err
+    from mirsym.interp import Explorer
+    from mirsym.vmdriver import build_program, skel_value
+    from wasmsym.driver import _struct, ModuleV, FuncV, load_module, install_module_models
+    from wasmsym.exec import Instance
+    from wasmsym.hostwasm import Host
+    an = progcheck.ProgramAnalysis(sample_prog, mirs, steps=1)
+    if not an.compile():
+        return [dict(scenario='*', status='error', msg='sample program rejected')], {}
+    cj = an.cj
+    out = []
+    stats = {}
+
+    def run(name, body):
+        smt, it = an.new_interp()
+        ex = Explorer(smt, 8)
+        box = {}
+
+        def path(it):
+            install_module_models(it)
+            it.models.extra['report'] = lambda it_, a, fr, c: UNIT
+            it.models.extra['mimium_lang::utils::error::report'] = lambda it_, a, fr, c: UNIT
+            ch = it.call('std::sync::mpsc::channel', [], None)
+            tx, rx = ch.fields
+            sk = cj['wasm'].get('dsp_state_skeleton')
+            oldprog = _struct(it, 'OldWasmProgram', dsp_state_skeleton=some(skel_value(it, sk)) if sk is not None else none(), ext_fns=VecV([]), plugin_fns=none())
+            mtx = it.call('std::sync::Mutex::new', [some(oldprog)], None)
+            box['runner'] = lambda use_wasm: _struct(it, 'FileRunner', tx_compiler=Opaque('Sender<CompileRequest>'), rx_compiler=Opaque('Receiver<Response>'), tx_prog=some(tx),
+                                                     fullpath=Opaque('PathBuf'), use_wasm=Sc('bool', int(use_wasm)), old_program=mtx, retired_engine_receiver=none())
+            box['oldprog'] = oldprog
+            box['mtx'] = mtx
+            exp = body(it, box)
+            q = rx.fields[0].queue
+            got = []
+            e = it.layouts.find_enum('ProgramPayload')
+            for pl in q:
+                d = it.concretize(it.discriminant(pl), 'payload variant')
+                vd = e.variants[d]
+                got.append(vd[0] if isinstance(vd, (tuple, list)) else str(d))
+            box['got'] = got
+            box['exp'] = exp
+            box['queue'] = list(q)
+            return None
+        res = ex.explore(it, path)
+        st = res[0][0] if res else 'none'
+        rec = dict(scenario=name, status=st)
+        for k in ('queries', 'sat', 'unsat', 'unknown', 'solver_s', 'paths', 'mir_statements'):
+            stats[k] = stats.get(k, 0) + smt.stats.as_dict().get(k, 0)
+        if st != 'ok':
+            rec['msg'] = str(res[0][1])[:300] if res else ''
+            if ex.findings:
+                rec['msg'] = ex.findings[0].msg[:300]
+        else:
+            rec.update(payloads_sent=box['got'], expected=box['exp'])
+            chk = box.get('check')
+            if len(box['got']) != len(box['exp']) or any(str(a) != str(b) for a, b in zip(box['got'], box['exp'])):
+                rec['status'] = 'violation'
+                rec['msg'] = 'payloads sent to the audio thread: %r, expected %r' % (box['got'], box['exp'])
+            elif chk is not None:
+                m = chk(box)
+                if m:
+                    rec['status'] = 'violation'
+                    rec['msg'] = m
+        rec['functions'] = len(it.functions_used)
+        out.append(rec)
+
+    def closure_env(it, runner):
+        span = [k for k in it.crate.closure_by_span if 'mimium-cli/src/lib.rs' in k and 'recompile' not in k and _is_recompile_closure(it, k)]
+        return Agg('closure:' + span[0], None, [Ref([runner], 0), Ref([StrV('fn dsp(){ 0.0 }')], 0)])
+
+    def _is_recompile_closure(it, span):
+        mir, name = it.crate.closure_by_span[span]
+        return 'recompile_file_inprocess::{closure#0}' in name
+
+    # 1. in-process route, the compiler answers with errors
+    def s_err(it, box):
+        it.call_value(closure_env(it, box['runner'](False)), [err(VecV([Opaque('RichError'), Opaque('RichError')]))], None)
+        return []
+    run('inprocess: compile error', s_err)
+
+    # 2. in-process route, unexpected answers (AST / MIR)
+    def s_ast(it, box):
+        e = it.layouts.find_enum('Response')
+        it.call_value(closure_env(it, box['runner'](False)), [ok(Agg(it.enum_tag(e), e.variant_index('Ast'), [Opaque('ExprNodeId')]))], None)
+        return []
+    run('inprocess: unexpected AST answer', s_ast)
+
+    # 3. in-process route, bytecode: exactly one VmProgram payload carrying that very program
+    def s_bc(it, box):
+        e = it.layouts.find_enum('Response')
+        prog = build_program(it, cj['bytecode']['program'])
+        box['prog'] = prog
+        it.call_value(closure_env(it, box['runner'](False)), [ok(Agg(it.enum_tag(e), e.variant_index('ByteCode'), [prog]))], None)
+        box['check'] = lambda b: None if (b['queue'] and b['queue'][0].fields[0] is b['prog']) else 'the payload does not carry the compiled program'
+        return ['VmProgram']
+    run('inprocess: bytecode compiled', s_bc)
+
+    def wasm_stubs(it, fail_load=False):
+        def eng_new(it_, args, fr, callee):
+            return ok(_struct(it, 'WasmEngine', runtime=Opaque('WasmRuntime'), current_module=none(), dsp_func=none()))
+
+        def load_mod(it_, args, fr, callee):
+            if fail_load:
+                return err(StrV('Failed to load WASM module'))
+            e = args[0]
+            while type(e) is Ref:
+                e = e.cont[e.key]
+            m = load_module(cj['wasm']['wat'])
+            h = Host(it, 48000.0)
+            mv = ModuleV(Instance(m, it, h), h, m)
+            fs = it.layouts.find_struct('WasmEngine').fields
+            e.fields[fs.index('current_module')] = some(mv)
+            e.fields[fs.index('dsp_func')] = some(FuncV('dsp'))
+            return ok(UNIT)
+        it.models.extra['WasmEngine::new'] = eng_new
+        it.models.extra['WasmEngine::load_module'] = load_mod
+
+    def recompile(it, box, load_ok, sub_ok, fail_load=False):
+        wasm_stubs(it, fail_load)
+        it.models.extra['load'] = it.models.extra['fileloader::load'] = it.models.extra['mimium_lang::utils::fileloader::load'] = \
+            (lambda it_, a, fr, c: ok(StrV('fn dsp(){ 0.0 }'))) if load_ok else (lambda it_, a, fr, c: err(Opaque('fileloader::Error')))
+        it.models.extra['FileRunner::try_compile_wasm_in_subprocess'] = \
+            (lambda it_, a, fr, c: ok(VecV([Sc('u8', 0)]))) if sub_ok else (lambda it_, a, fr, c: err(StrV('subprocess compile failed (status: Some(1))')))
+        it.models.extra['std::path::Path::to_string_lossy'] = it.models.extra['Path::to_string_lossy'] = lambda it_, a, fr, c: StrV('/x.mmm')
+        it.models.extra['std::path::Path::display'] = it.models.extra['Path::display'] = lambda it_, a, fr, c: StrV('/x.mmm')
+        runner = box['runner'](True)
+        before = box['mtx']
+        it.call('FileRunner::recompile_file', [Ref([runner], 0)], None)
+
+    def old_unchanged(b):
+        m = b['mtx']
+        while type(m) is Ref:
+            m = m.cont[m.key]
+        cur = m
+        # Mutex model: identity wrapper around the Option<OldWasmProgram>
+        from mirsym.models import RefCellV
+        inner = cur.cell[0] if hasattr(cur, 'cell') else (cur.v if hasattr(cur, 'v') else cur)
+        if hasattr(inner, 'fields') and inner.variant == 1 and inner.fields[0] is b['oldprog']:
+            return None
+        return 'the remembered old program was replaced although nothing was swapped'
+
+    def s_sub_err(it, box):
+        recompile(it, box, True, False)
+        box['check'] = old_unchanged
+        return []
+    run('subprocess: compile error', s_sub_err)
+
+    def s_load_err(it, box):
+        recompile(it, box, False, True)
+        box['check'] = old_unchanged
+        return []
+    run('subprocess: source file unreadable', s_load_err)
+
+    def s_prewarm_err(it, box):
+        recompile(it, box, True, True, fail_load=True)
+        box['check'] = old_unchanged
+        return []
+    run('subprocess: module compiles but does not load (prewarm fails)', s_prewarm_err)
+
+    def s_sub_ok(it, box):
+        recompile(it, box, True, True)
+        # vacuity witness of the `old_unchanged` detector: a successful preparation DOES replace the remembered program
+        box['check'] = lambda b: None if old_unchanged(b) else 'update_old_program did not run after a successful preparation (or the detector is blind)'
+        return ['WasmModule']
+    run('subprocess: module compiled', s_sub_ok)
+    return out, stats
 
 
 def classify(m, d):
